@@ -837,7 +837,14 @@ fn gen_cli_case(tape: Vec<u8>) -> CliCase {
     let eq_form = u.ratio(1, 4);
     let entropy = u.bytes(elen);
     let phrase = bip39::encode_phrase(&entropy);
-    let inv = cli_invocation(&phrase, mode, &value, eq_form);
+    // one case in twenty has the empty text as value; a third of the cases pass the value through the documented
+    // environment variable instead of the flag ("behave identically to flags")
+    let value = if u.ratio(1, 20) { String::new() } else { value };
+    let inv = if u.ratio(1, 3) && !value.contains('\0') {
+        Invocation::new(&["address", "--mnemonic", &phrase]).env(if mode == "hd-path" { "HD_PATH" } else { "ACCOUNT_INDEX" }, value.clone())
+    } else {
+        cli_invocation(&phrase, mode, &value, eq_form)
+    };
     CliCase { phrase, mode: mode.into(), value, inv }
 }
 
@@ -855,10 +862,11 @@ fn judge_cli(c: &CliCase, cls: &mut Classifier) -> Verdict {
     }
     // the invocation must carry exactly the modelled value
     let a = &c.inv.args;
-    let carried = a.len() >= 4
+    let carried = a.len() >= 3
         && a[..3] == ["address".to_string(), "--mnemonic".to_string(), c.phrase.clone()]
-        && c.inv.env.is_empty()
-        && ((a.len() == 5 && a[3] == format!("--{}", c.mode) && a[4] == c.value) || (a.len() == 4 && a[3] == format!("--{}={}", c.mode, c.value)));
+        && ((c.inv.env.is_empty() && ((a.len() == 5 && a[3] == format!("--{}", c.mode) && a[4] == c.value) || (a.len() == 4 && a[3] == format!("--{}={}", c.mode, c.value))))
+            || (a.len() == 3 && c.inv.env == vec![(if c.mode == "hd-path" { "HD_PATH" } else { "ACCOUNT_INDEX" }.to_string(), c.value.clone())]));
+    let via_env = !c.inv.env.is_empty();
     if !carried {
         return fail("argv rendered from (phrase, mode, value)", format!("{a:?}"), "bad replay case");
     }
@@ -900,9 +908,17 @@ fn judge_cli(c: &CliCase, cls: &mut Classifier) -> Verdict {
         cls.label("cli:timeout");
         return Ok(());
     }
-    let what = format!("`address --{} {:?}`", c.mode, truncate(&c.value, 200));
+    let what = if via_env { format!("`address` with {}={:?}", c.inv.env[0].0, truncate(&c.value, 200)) } else { format!("`address --{} {:?}`", c.mode, truncate(&c.value, 200)) };
     if out.panicked() {
         return fail("an address or an ordinary error exit", out.describe(), format!("{what} panicked / abnormal exit"));
+    }
+    if via_env {
+        // the documented variable behaves identically to the flag: same success/refusal, same stdout
+        let flag = cli::run(&exe, &cli_invocation(&c.phrase, &c.mode, &c.value, true), Duration::from_secs(30));
+        if !flag.timed_out && (flag.ok(), &flag.stdout) != (out.ok(), &out.stdout) {
+            return fail(format!("as with --{}={:?}: {}", c.mode, truncate(&c.value, 100), flag.describe()), out.describe(), format!("{what}: options taken from the environment behave identically to flags"));
+        }
+        cls.label("cli:via-env");
     }
     match want {
         Want::Address(line) => {
